@@ -173,7 +173,9 @@ func (e *ssmEnv) newStore() {
 	e.s, e.ln = mustNewStoreAtPathsLn(e.id, e.dir, e.fk)
 	e.s.NoSnapshotOnClose = e.noSnapOnClose
 	e.s.SnapshotThreshold = 1 << 40 // only explicit snapshots
-	e.s.SnapshotReapThreshold = 1 << 20 // no background reaping: a directory copy taken while the reaper runs is not a state any crash leaves (reap crash-safety is C07)
+	if e.prop == "C03" {
+		e.s.SnapshotReapThreshold = 1 << 20
+	} // C03 only: no background reaping: a directory copy taken while the reaper runs is not a state any crash leaves (reap crash-safety is C07)
 	e.s.HeartbeatTimeout = 300 * time.Millisecond
 	e.s.ElectionTimeout = 300 * time.Millisecond
 	e.s.LeaderLeaseTimeout = 300 * time.Millisecond
